@@ -508,6 +508,8 @@ func wfExtents(T []uint64) bool {
 //@   ensures typ: implies(i.off <= len(i.tape.Tape) && 1 <= i.off && result != TypeNone, result == TagToType[i.t])
 //@   ensures none: i.addNext >= 0 && i.off >= old(i.off)+old(i.addNext) && len(i.tape.Tape) == len(old(i.tape.Tape))
 //@   ensures stuck: implies(i.off <= old(i.off)+old(i.addNext), i.t == TagEnd && result == TypeNone)
+//@   ensures atend: implies(old(i.off)+old(i.addNext) >= len(i.tape.Tape), result == TypeNone)
+//@   ensures endpos: implies(i.t == TagEnd, i.off >= len(i.tape.Tape) || i.off > old(i.off)+old(i.addNext))
 //@   ensures inv: iterOK(i)
 //@   invariant 0 0 <= i.off && i.off <= 1<<57 && old(i.off)+old(i.addNext) <= i.off
 //@   decreases 0 len(i.tape.Tape) - i.off
@@ -605,8 +607,9 @@ func wfExtents(T []uint64) bool {
 //@   ensures[C14,C02] member: implies(nopRun(old(o.tape.Tape), old(o.off), q) && q < len(o.tape.Tape) && tagOf(o.tape.Tape[q]) == TagString && result2 == nil, q+2 < len(o.tape.Tape) && dst.t == tagOf(o.tape.Tape[q+2]) && dst.cur == payOf(o.tape.Tape[q+2]) && dst.off == q+3 && result1 == TagToType[dst.t] && o.off == q+3+stepAddNext(dst.t, dst.cur, q+3) && len(dst.tape.Tape) == o.off && len(name) == int(o.tape.Tape[q+1]))
 //@   ensures[C14,C02] endobj: implies(nopRun(old(o.tape.Tape), old(o.off), q) && (q == len(o.tape.Tape) || tagOf(o.tape.Tape[q]) == TagObjectEnd), result2 == nil && result1 == TypeNone)
 //@   ensures progress: implies(result2 == nil && result1 != TypeNone, o.off > old(o.off))
+//@   ensures atend: implies(old(o.off) >= len(o.tape.Tape), result1 == TypeNone && result2 == nil)
 //@   ensures inv: 0 <= o.off && o.off <= 1<<57 && len(o.tape.Tape) == len(old(o.tape.Tape))
-//@   ensures dstok: implies(result2 == nil && result1 != TypeNone, iterOK(dst) && dst.tape.Strings != nil)
+//@   ensures dstok: implies(result2 == nil && result1 != TypeNone, iterOK(dst) && dst.tape.Strings != nil && dst.off > old(o.off) && len(dst.tape.Tape) <= len(o.tape.Tape) && dst.t != TagEnd)
 //@   decreases rec len(o.tape.Tape) - o.off
 //@   nonnil dst
 //@   safe
@@ -1365,3 +1368,92 @@ func marshalMeasure(i *Iter) int {
 //@   assertafter `append(dst, '"')` quote: i.t == TagString
 //@   assertafter `escapeBytes(dst, sb)` body: i.t == TagString
 //@   safe [C05]
+
+// ---------------------------------------------------------------------------
+// Further readers: memory safety and termination on arbitrary tapes (C05, C19)
+
+//@ func (*Array).ForEach
+//@   props C05 C19
+//@   requires 0 <= a.off && a.off <= 1<<56
+//@   invariant 0 iterOK(&i)
+//@   decreases 0 maxInt(0, len(i.tape.Tape)-i.off-i.addNext)
+//@   safe
+
+//@ func (*Array).AsString
+//@   props C05 C19
+//@   requires 0 <= a.off && a.off <= 1<<56 && a.tape.Strings != nil
+//@   invariant 0 iterOK(&i) && i.tape.Strings != nil
+//@   decreases 0 len(i.tape.Tape) - i.off - i.addNext
+//@   safe
+
+//@ func (*Array).AsStringCvt
+//@   props C05 C19
+//@   requires 0 <= a.off && a.off <= 1<<56 && a.tape.Strings != nil
+//@   invariant 0 iterOK(&i) && i.tape.Strings != nil
+//@   decreases 0 len(i.tape.Tape) - i.off - i.addNext
+//@   safe
+
+//@ func (*Iter).StringCvt
+//@   props C05 C19
+//@   requires iterOK(i) && i.tape.Strings != nil
+//@   safe
+
+//@ func (*Array).FirstType
+//@   props C05 C19
+//@   requires 0 <= a.off && a.off <= 1<<56
+//@   safe
+
+//@ func (*ParsedJson).ForEach
+//@   props C05 C19
+//@   invariant 0 iterOK(&i)
+//@   decreases 0 len(i.tape.Tape) - i.off - i.addNext
+//@   safe
+
+//@ func (*Object).Parse
+//@   props C05 C19
+//@   requires 0 <= o.off && o.off <= 1<<57 && o.tape.Strings != nil
+//@   invariant 1 0 <= o.off && o.off <= 1<<57 && o.tape.Strings != nil
+//@   decreases 1 maxInt(0, len(o.tape.Tape)-o.off)
+//@   safe
+
+// Interface()/Map(): mutually recursive readers. One well-founded measure for the group: four times the number of
+// tape words at or after the read position of the window, plus a small rank (iterator on a live entry 2, container /
+// iterator at the end 1). Every nested call strictly decreases it, so the recursion depth is bounded by the tape length.
+func ifaceMeasureIter(i *Iter) int {
+	return 4*maxInt(0, len(i.tape.Tape)-i.off) + ite(i.t != TagEnd, 2, 1)
+}
+
+//@ func (*Iter).Interface
+//@   props C05 C19
+//@   summary
+//@   opt recgroup iface
+//@   requires iterOK(i) && i.tape.Strings != nil
+//@   assigns i.off, i.addNext, i.cur, i.t
+//@   ensures inv: iterOK(i)
+//@   ensures adv: i.off >= old(i.off) && i.off+i.addNext >= old(i.off)+old(i.addNext)
+//@   decreases rec ifaceMeasureIter(i)
+//@   invariant 0 iterOK(i) && i.tape.Strings != nil && i.off >= old(i.off) && i.off+i.addNext >= old(i.off)+old(i.addNext) && len(i.tape.Tape) == len(old(i.tape.Tape))
+//@   decreases 0 maxInt(0, len(i.tape.Tape)-i.off-i.addNext)
+//@   safe
+
+//@ func (*Array).Interface
+//@   props C05 C19
+//@   summary
+//@   opt recgroup iface
+//@   requires 0 <= a.off && a.off <= 1<<57 && a.tape.Strings != nil
+//@   decreases rec 4*maxInt(0, len(a.tape.Tape)-a.off) + 1
+//@   invariant 0 iterOK(&i) && i.tape.Strings != nil && i.off >= a.off && len(i.tape.Tape) == len(a.tape.Tape)
+//@   decreases 0 maxInt(0, len(i.tape.Tape)-i.off-i.addNext)
+//@   safe
+
+//@ func (*Object).Map
+//@   props C05 C19
+//@   summary
+//@   opt recgroup iface
+//@   requires 0 <= o.off && o.off <= 1<<57 && o.tape.Strings != nil
+//@   assigns o.off
+//@   decreases rec 4*maxInt(0, len(o.tape.Tape)-o.off) + 1
+//@   invariant 0 0 <= o.off && o.off <= 1<<57 && o.off >= old(o.off) && o.tape.Strings != nil && len(o.tape.Tape) == len(old(o.tape.Tape))
+//@   decreases 0 maxInt(0, len(o.tape.Tape)-o.off)
+//@   safe
+
